@@ -5,34 +5,36 @@ func init() {
 		Explanation: "Decides the mechanisms uniqueness rests on, on every path: (R1) the two tables, the pool list and the guarded fields of table-resident objects are accessed only under cacheLock (lockset engine, W for writes); (R2) an object enters the allocated table only after the Create of that very object succeeded; (R3) store-client errors (AlreadyExists included) are returned by the store wrappers; (R4) every IPAM mutator call made by the scheduler plugin has the per-pod key-mutex class held along the call chain from every entry point (one listed exception: Preempt); (R5) in allocateIP a stored UID that differs from the pod's UID ends in an error return before any assign/mutator; (R6) the release API and resync free an IP only behind the not-running and key-unchanged edges, with a fail-safe liveness test, deciding on the record re-read under the pod lock; (R7) release events are queued only for deleted, finished or no-longer-existing pods (an IP freed under a live pod would be handed to a second one). (R12) the uid and node recorded for an ip are persisted and restored into the entry itself (pointer receiver), so the uid guard survives a reload. Does not decide that these mechanisms suffice under every interleaving, nor restart behaviour beyond that.",
 		Assumptions: []string{"locks identified by (struct type, field); hashed key mutexes treated as one class per pool", "CFG paths, no feasibility reasoning"},
 		Run: func(c *Ctx) {
-			c.Rule("C01.R1", "tables only under the cache lock", 35)
-			ruleGuardedBy(c, "C01.R1", []string{cacheLockID}, 40)
-			c.Rule("C01.R2", "cache insert only after the Create of that object succeeded", 3)
+			c.Rule("C01.R1", "tables only under the cache lock", 21)
+			ruleGuardedBy(c, "C01.R1", []string{cacheLockID}, 15)
+			c.Rule("C01.R2", "cache insert only after the Create of that object succeeded", 1)
 			ruleCreateBeforeCache(c, "C01.R2")
-			c.Rule("C01.R3", "store-client errors are returned", 5)
+			c.Rule("C01.R3", "store-client errors are returned", 2)
 			ruleStoreErrorsPropagate(c, "C01.R3")
-			c.Rule("C01.R4", "IPAM mutators under the pod lock", 7)
+			c.Rule("C01.R4", "IPAM mutators under the pod lock", 4)
 			rulePodLockAtMutators(c, "C01.R4")
-			c.Rule("C01.R5", "UID guard in allocateIP", 3)
+			c.Rule("C01.R5", "UID guard in allocateIP", 2)
 			ruleUIDGuard(c, "C01.R5")
-			c.Rule("C01.R6", "asynchronous releasers free an ip only behind 'not running' and 'key unchanged', deciding on the re-read record", 24)
+			c.Rule("C01.R6", "asynchronous releasers free an ip only behind 'not running' and 'key unchanged', deciding on the re-read record", 15)
 			ruleReleasers(c, "C01.R6", "reread")
 			ruleReleasers(c, "C01.R6", "guards")
 			ruleReleasers(c, "C01.R6", "fresh")
 			ruleLivenessFailSafe(c, "C01.R6")
-			c.Rule("C01.R8", "a reload keeps every allocation whose ip is still configured (search exhaustion, range match, snapshot under the lock)", 5)
+			c.Rule("C01.R8", "a reload keeps every allocation whose ip is still configured (search exhaustion, range match, snapshot under the lock)", 2)
 			ruleReloadDeletesOnlyForeign(c, "C01.R8")
 			ruleReloadPoolMatch(c, "C01.R8")
 			ruleListUnderLock(c, "C01.R8")
-			c.Rule("C01.R9", "owner keys are compared for equality; prefix queries only with pool prefixes", 10)
+			c.Rule("C01.R9", "owner keys are compared for equality; prefix queries only with pool prefixes", 6)
 			ruleExactKeyQueries(c, "C01.R9")
-			c.Rule("C01.R10", "the pod lock key is (name, namespace) at every site", 5)
+			c.Rule("C01.R10", "the pod lock key is (name, namespace) at every site", 3)
 			rulePodLockKey(c, "C01.R10")
-			c.Rule("C01.R11", "table entries move only through the paired helpers (an ip is in exactly one table)", 6)
+			c.Rule("C01.R11", "table entries move only through the paired helpers (an ip is in exactly one table)", 3)
 			ruleTablesOnlyThroughHelpers(c, "C01.R11")
-			c.Rule("C01.R12", "the uid / node recorded for an ip survive a reload (persisted fields = restored fields, restored into the entry itself)", 3)
+			c.Rule("C01.R12", "the uid / node recorded for an ip survive a reload (persisted fields = restored fields, restored into the entry itself)", 1)
 			rulePersistRestoreAgree(c, "C01.R12")
-			c.Rule("C01.R7", "release events are queued only for pods that are gone or finished", 4)
+			c.Rule("C01.R13", "unbind acts only for the incarnation that holds the ip (a late event cannot free the ip of the new pod, which would then be handed out twice)", 2)
+			ruleUnbindUIDGuard(c, "C01.R13")
+			c.Rule("C01.R7", "release events are queued only for pods that are gone or finished", 2)
 			ruleReleaseEventsQueued(c, "C01.R7")
 		}})
 }
@@ -42,31 +44,33 @@ func init() {
 		Explanation: "Decides, for the two asynchronous releasers (release API, resync closure): (R1) the IP is re-read with the pod lock held; (R2) every unassign/reserve/release/unbind is reachable only through the not-running edge of podRunning and the key-unchanged edge of the re-read record; (R3) the liveness test is fail-safe: 'not running' only via NotFound / uid mismatch / finished, and only after asking the API server; (R4) IPAM Release/ReleaseIPs/UpdateAttr write the store only if the stored key equals the caller's key; (R5) uid, node, address and policy the decision uses derive from the re-read record, not from a snapshot taken before the lock (flow through memory cells checked with dominance); (R6) release events are queued only for deleted / finished / no-longer-existing pods and failed unbinds are re-queued. Does not decide orderings of late events against a replacement's bind (event history), nor informer lag.",
 		Assumptions: []string{"CFG paths; memory cells tracked field-sensitively inside one function only"},
 		Run: func(c *Ctx) {
-			c.Rule("C04.R1", "re-read under the pod lock", 2)
+			c.Rule("C04.R1", "re-read under the pod lock", 1)
 			ruleReleasers(c, "C04.R1", "reread")
-			c.Rule("C04.R2", "freeing calls behind 'not running' and 'key unchanged'", 14)
+			c.Rule("C04.R2", "freeing calls behind 'not running' and 'key unchanged'", 8)
 			ruleReleasers(c, "C04.R2", "guards")
-			c.Rule("C04.R3", "fail-safe liveness test", 4)
+			c.Rule("C04.R13", "unbind acts only for the incarnation that holds the ip (UID guard in the event handler)", 2)
+			ruleUnbindUIDGuard(c, "C04.R13")
+			c.Rule("C04.R3", "fail-safe liveness test", 2)
 			ruleLivenessFailSafe(c, "C04.R3")
-			c.Rule("C04.R4", "store writes match on (ip,key)", 3)
+			c.Rule("C04.R4", "store writes match on (ip,key)", 1)
 			ruleKeyMatchBeforeStoreWrite(c, "C04.R4")
-			c.Rule("C04.R5", "decision inputs derive from the re-read record", 6)
+			c.Rule("C04.R5", "decision inputs derive from the re-read record", 4)
 			ruleReleasers(c, "C04.R5", "fresh")
-			c.Rule("C04.R6", "release events only for gone/finished pods; failed unbind re-queued", 4)
+			c.Rule("C04.R6", "release events only for gone/finished pods; failed unbind re-queued", 2)
 			ruleReleaseEventsQueued(c, "C04.R6")
-			c.Rule("C04.R8", "a reload keeps every allocation whose ip is still configured", 5)
+			c.Rule("C04.R8", "a reload keeps every allocation whose ip is still configured", 2)
 			ruleReloadDeletesOnlyForeign(c, "C04.R8")
 			ruleReloadPoolMatch(c, "C04.R8")
 			ruleListUnderLock(c, "C04.R8")
-			c.Rule("C04.R9", "owner keys are compared for equality; prefix queries only with pool prefixes", 10)
+			c.Rule("C04.R9", "owner keys are compared for equality; prefix queries only with pool prefixes", 6)
 			ruleExactKeyQueries(c, "C04.R9")
-			c.Rule("C04.R10", "bind waits for the old incarnation's delete event (UID guard)", 3)
+			c.Rule("C04.R10", "bind waits for the old incarnation's delete event (UID guard)", 2)
 			ruleUIDGuard(c, "C04.R10")
-			c.Rule("C04.R11", "a store Create conflict is an error (never an upsert over a live pod's object)", 5)
+			c.Rule("C04.R11", "a store Create conflict is an error (never an upsert over a live pod's object)", 2)
 			ruleStoreErrorsPropagate(c, "C04.R11")
-			c.Rule("C04.R12", "the pod lock key is (name, namespace) at every site", 5)
+			c.Rule("C04.R12", "the pod lock key is (name, namespace) at every site", 3)
 			rulePodLockKey(c, "C04.R12")
-			c.Rule("C04.R7", "IPAM mutators under the pod lock (unbind, syncPodIP, resync, release)", 7)
+			c.Rule("C04.R7", "IPAM mutators under the pod lock (unbind, syncPodIP, resync, release)", 5)
 			rulePodLockAtMutators(c, "C04.R7")
 		}})
 }
@@ -76,20 +80,20 @@ func init() {
 		Explanation: "Decides, in unbind, the release API and the resync closure: (R1) the unassign exists on the provider path, a failed unassign never proceeds to free/re-key and is returned/retried, no unassign follows a free, node and uid are cleared (reserveIP(key,key)) only after a successful unassign, and with a provider the free is preceded by the unassign unless no node is recorded; (R2) the UID guard of allocateIP ends in an error before any assign; (R3) a failed assign fails allocateIP and the pod is bound only after allocateIP succeeded; (R4) node names and addresses in the requests come from the stored/re-read record (unassign) and from the bind's node (assign). (R7) the provider wrappers return nil only behind reply.Success (or 'no provider configured'): a failed, missing or swallowed reply is never success. Does not decide whole per-IP call sequences across moves and retries (a state machine over a history).",
 		Assumptions: []string{"CFG paths; the provider is reached only through cloudProviderAssignIP/UnAssignIP"},
 		Run: func(c *Ctx) {
-			c.Rule("C10.R1", "unassign before free; failure stops; node/uid cleared after", 18)
+			c.Rule("C10.R1", "unassign before free; failure stops; node/uid cleared after", 10)
 			ruleUnbindCloudOrder(c, "C10.R1")
 			ruleReleasers(c, "C10.R1", "cloud")
-			c.Rule("C10.R2", "UID guard before assign", 3)
+			c.Rule("C10.R2", "UID guard before assign", 2)
 			ruleUIDGuard(c, "C10.R2")
-			c.Rule("C10.R3", "failed assign fails the bind; bind only after allocateIP", 4)
+			c.Rule("C10.R3", "failed assign fails the bind; bind only after allocateIP", 2)
 			ruleAssignInBind(c, "C10.R3")
 			ruleBindAfterAllocate(c, "C10.R3")
-			c.Rule("C10.R5", "the node recorded for an ip is refreshed by every successful bind", 2)
+			c.Rule("C10.R5", "the node recorded for an ip is refreshed by every successful bind", 1)
 			ruleUpdateAttrAlwaysWrites(c, "C10.R5")
-			c.Rule("C10.R6", "free / reserve after a pod is gone is entered only from the unassign-first paths; scheduling paths never release", 9)
+			c.Rule("C10.R6", "free / reserve after a pod is gone is entered only from the unassign-first paths; scheduling paths never release", 4)
 			ruleWhoMayUnbind(c, "C10.R6")
 			ruleSchedulingNeverReleases(c, "C10.R6")
-			c.Rule("C10.R7", "provider wrappers report success only for a successful reply", 2)
+			c.Rule("C10.R7", "provider wrappers report success only for a successful reply", 1)
 			ruleProviderSuccessOnlyOnReply(c, "C10.R7")
 			c.Rule("C10.R4", "request fields come from the re-read record", 4)
 			ruleReleasers(c, "C10.R4", "fresh")
@@ -101,25 +105,25 @@ func init() {
 		Explanation: "Decides: (R1) policy -> effect on every branch of unbindDpPod / unbindNoneDpPod / shouldRelease: PodDelete always releases and never reserves; Never never releases; Immutable releases only through `replicas==0`, `len(all ips of the prefix) > replicas`, `app gone`, `replicas < index+1`, and reserves only through their complements; lookup errors keep the IP; (R2) policy derivation: pool annotation forces Never, ConvertReleasePolicy maps the documented strings and defaults to PodDelete, every declared policy is produced, the PolicyStr table has one entry per declared constant; (R3) resync hands the re-read stored policy to the unbind functions; (R4) delete / finish events are queued and a failed unbind is re-queued; (R5) the Attr given to every IPAM allocator/UpdateAttr call carries a Policy derived from parseReleasePolicy(pod) (through parameters, checked at every caller); (R6) unbind parses the policy from the pod and routes deployment pods to unbindDpPod. (R9) only unbind takes the policy decision (scheduling paths never release or reserve directly), and a found pod counts as gone only when finished or of another uid — a terminating pod is still running. Numeric boundaries (>= for >) and quiescent-state equality over all histories are not decided.",
 		Assumptions: []string{"CFG paths; constants identified by type and value"},
 		Run: func(c *Ctx) {
-			c.Rule("C03.R1", "policy -> release/reserve effect on every branch", 12)
+			c.Rule("C03.R1", "policy -> release/reserve effect on every branch", 7)
 			rulePolicyEffect(c, "C03.R1")
-			c.Rule("C03.R2", "policy derivation / exhaustiveness", 6)
+			c.Rule("C03.R2", "policy derivation / exhaustiveness", 3)
 			rulePolicyDerivation(c, "C03.R2")
 			c.Rule("C03.R3", "resync uses the stored (re-read) policy", 4)
 			ruleReleasers(c, "C03.R3", "fresh")
-			c.Rule("C03.R4", "events reach unbind; failed unbind re-queued", 4)
+			c.Rule("C03.R4", "events reach unbind; failed unbind re-queued", 2)
 			ruleReleaseEventsQueued(c, "C03.R4")
-			c.Rule("C03.R7", "reserve keeps the stored policy in store and memory alike", 3)
+			c.Rule("C03.R7", "reserve keeps the stored policy in store and memory alike", 1)
 			ruleCloneMatchesAssign(c, "C03.R7")
-			c.Rule("C03.R8", "the immutable-deployment count and its release/reserve decision run under the pool lock of the counted prefix", 20)
+			c.Rule("C03.R8", "the immutable-deployment count and its release/reserve decision run under the pool lock of the counted prefix", 12)
 			rulePoolLock(c, "C03.R8")
-			c.Rule("C03.R9", "the policy decision is taken only by unbind (no direct release from scheduling paths) and only for pods that are gone: terminating pods count as running", 10)
+			c.Rule("C03.R9", "the policy decision is taken only by unbind (no direct release from scheduling paths) and only for pods that are gone: terminating pods count as running", 6)
 			ruleWhoMayUnbind(c, "C03.R9")
 			ruleSchedulingNeverReleases(c, "C03.R9")
 			ruleLivenessFailSafe(c, "C03.R9")
-			c.Rule("C03.R5", "stored policy is the pod's policy", 5)
+			c.Rule("C03.R5", "stored policy is the pod's policy", 2)
 			ruleStoredPolicyIsPodPolicy(c, "C03.R5")
-			c.Rule("C03.R6", "unbind derives the policy from the pod", 3)
+			c.Rule("C03.R6", "unbind derives the policy from the pod", 1)
 			ruleUnbindUsesPodPolicy(c, "C03.R6")
 		}})
 }
@@ -129,58 +133,58 @@ func init() {
 		Explanation: "Decides the mechanism 'count and allocate inside the pool lock': in the filter (getSubnet/getAvailableSubnet/allocateDuringFilter) deployment keys always pass LockDpPool(PoolPrefix()) before the count, nothing is counted or allocated before the lock, and isPoolSizeDefined can be true only on paths dominated by the lock acquisition; the count is over the locked prefix and the size/replicas limit ends in an error before any subnet is computed; pre-allocation through the API counts and allocates with the same lock class held (LockPoolFunc is bound to exactly the pool-lock wrapper) and lock key = counted prefix = allocation key; unbindDpPod counts and decides under the pool lock; a failed re-key never falls through to a fresh allocation and errors on this path are returned. (R4) once the Pool object was found, getDpReplicas answers (pool.Size, true) for every size value including 0. Does not decide the numeric bound under all interleavings nor that the size read before the lock is the size in force.",
 		Assumptions: []string{"key mutex pools are identified by field (class), the key argument is checked to be the PoolPrefix() value"},
 		Run: func(c *Ctx) {
-			c.Rule("C07.R1", "count + allocate inside the pool lock (filter, pre-allocation, unbind); limit; error discipline", 20)
+			c.Rule("C07.R1", "count + allocate inside the pool lock (filter, pre-allocation, unbind); limit; error discipline", 12)
 			rulePoolLock(c, "C07.R1")
-			c.Rule("C07.R3", "pre-allocation only after the Pool object was stored successfully", 3)
+			c.Rule("C07.R3", "pre-allocation only after the Pool object was stored successfully", 1)
 			rulePreallocAfterStore(c, "C07.R3")
 			c.Rule("C07.R4", "a found Pool object defines the size, whatever its value", 1)
 			rulePoolFoundDefinesSize(c, "C07.R4")
-			c.Rule("C07.R2", "releaser of a lock wrapper is deferred immediately", 9)
+			c.Rule("C07.R2", "releaser of a lock wrapper is deferred immediately", 4)
 			ruleWrapperDeferred(c, "C07.R2")
 		}})
 	register(&propDef{ID: "C02", Title: "Float IP is sticky across reschedule and rolling update",
 		Explanation: "Decides necessary conditions of 'reuse the reserved IP, never a fresh one': (R1) bind looks the pod's IPs up before allocating, has a success path that allocates nothing, allocates only the ranges whose lookup entry is nil, and only refreshes attributes of reused IPs under the same key; (R2) filter looks up first and returns the held IPs' node subnets without consulting the free pool; a partly allocated request is intersected with the held IPs' subnets; (R3) the UID guard; (R4) the re-key picks only an entry with the old key in a pool routable from the subnet, and updates store and memory with a clone of that entry under the new key; (R5) the unbind functions reserve instead of releasing for immutable/never (C03.R1). (R11) the wait-for-release decision of getAvailableSubnet is computed from every entry of the prefix listing (the loop has no break/return) and from Spec.Replicas only. Does not decide 'exactly the IP it held before' over all histories and event orders, nor 'newest first'.",
 		Assumptions: []string{"CFG paths; data dependence is syntactic (SSA operands, phis, local cells)"},
 		Run: func(c *Ctx) {
-			c.Rule("C02.R11", "the wait-for-release decision uses the whole prefix listing and the desired replica count", 2)
+			c.Rule("C02.R11", "the wait-for-release decision uses the whole prefix listing and the desired replica count", 1)
 			ruleUsedCountWholeListing(c, "C02.R11")
-			c.Rule("C02.R1", "lookup before allocate; reuse path; filter/bind node-subnet agreement", 12)
+			c.Rule("C02.R1", "lookup before allocate; reuse path; filter/bind node-subnet agreement", 6)
 			ruleStickyLookup(c, "C02.R1")
-			c.Rule("C02.R3", "UID guard", 3)
+			c.Rule("C02.R3", "UID guard", 2)
 			ruleUIDGuard(c, "C02.R3")
-			c.Rule("C02.R4", "re-key guards", 3)
+			c.Rule("C02.R4", "re-key guards", 1)
 			ruleRekeyGuards(c, "C02.R4")
-			c.Rule("C02.R5", "unbind reserves for immutable/never", 12)
+			c.Rule("C02.R5", "unbind reserves for immutable/never", 7)
 			rulePolicyEffect(c, "C02.R5")
 			c.Rule("C02.R7", "resync / release API clear node and uid under the pod's own key (reserveIP(key, key))", 4)
 			ruleReleasers(c, "C02.R7", "cloud")
-			c.Rule("C02.R8", "filter / bind / preempt / pod-ip sync never release or reserve", 4)
+			c.Rule("C02.R8", "filter / bind / preempt / pod-ip sync never release or reserve", 2)
 			ruleSchedulingNeverReleases(c, "C02.R8")
-			c.Rule("C02.R9", "a pod is judged gone only after asking the API server (fail-safe liveness test)", 4)
+			c.Rule("C02.R9", "a pod is judged gone only after asking the API server (fail-safe liveness test)", 2)
 			ruleLivenessFailSafe(c, "C02.R9")
-			c.Rule("C02.R10", "release events are queued only for pods that are gone or finished", 4)
+			c.Rule("C02.R10", "release events are queued only for pods that are gone or finished", 2)
 			ruleReleaseEventsQueued(c, "C02.R10")
-			c.Rule("C02.R6", "a failed re-key of the reserved ip is returned, never replaced by a fresh allocation", 5)
+			c.Rule("C02.R6", "a failed re-key of the reserved ip is returned, never replaced by a fresh allocation", 3)
 			ruleFilterAllocErrors(c, "C02.R6")
 		}})
 	register(&propDef{ID: "C06", Title: "Filter-approved nodes can be bound and get a routable IP",
 		Explanation: "Decides: (R1) allocation only from pools that list the node subnet (single-IP allocator, multi-IP candidate callback, re-key); (R2) the ipinfo written for an IP takes mask, VLAN and gateway from that IP's own pool and the address from the IP; (R3) Filter keeps a node iff the computed subnet set contains getNodeSubnet(node), records the others as failed, and fails on a getSubnet error; filter and bind resolve node subnets through the same IPAM query; (R4) a pod that holds IPs is offered only their node subnets, and a partly allocated request is intersected with them; (R5) on reload an allocation is attached to the pool whose ranges contain the IP (not merely whose subnet does); errors on the allocation path are returned. (R8) a requested range without a free ip makes NodeSubnetsByIPRanges return the empty set, and after the allocation made during filter getSubnet returns exactly {the subnet of that allocation}. Does not decide that bind succeeds after filter, nor 'exactly the nodes with a free routable IP' (set equality over runtime tables).",
 		Assumptions: []string{"CFG paths"},
 		Run: func(c *Ctx) {
-			c.Rule("C06.R1", "allocation only from pools that list the node subnet", 6)
+			c.Rule("C06.R1", "allocation only from pools that list the node subnet", 4)
 			ruleAllocateRoutable(c, "C06.R1")
 			ruleCandidateGuards(c, "C06.R1")
 			ruleRekeyGuards(c, "C06.R1")
-			c.Rule("C06.R2", "ipinfo from the IP's own pool", 4)
+			c.Rule("C06.R2", "ipinfo from the IP's own pool", 2)
 			ruleIPInfoFromPool(c, "C06.R2")
-			c.Rule("C06.R3", "filter/bind lookup and node-subnet agreement", 12)
+			c.Rule("C06.R3", "filter/bind lookup and node-subnet agreement", 6)
 			ruleStickyLookup(c, "C06.R3")
-			c.Rule("C06.R6", "a pool's node-subnet set is read-only after ConfigurePool; hand-outs are copies", 2)
+			c.Rule("C06.R6", "a pool's node-subnet set is read-only after ConfigurePool; hand-outs are copies", 1)
 			rulePoolSetsImmutable(c, "C06.R6")
-			c.Rule("C06.R7", "a reserved ip leaves the free table (paired moves); reservation handlers guarded", 12)
+			c.Rule("C06.R7", "a reserved ip leaves the free table (paired moves); reservation handlers guarded", 6)
 			ruleTablesOnlyThroughHelpers(c, "C06.R7")
 			ruleReservationHandlers(c, "C06.R7")
-			c.Rule("C06.R8", "an unservable range vetoes the pod; after the allocation during filter exactly that subnet is offered", 2)
+			c.Rule("C06.R8", "an unservable range vetoes the pod; after the allocation during filter exactly that subnet is offered", 1)
 			ruleFilterSubnetAnswers(c, "C06.R8")
 			c.Rule("C06.R5", "reload attaches an allocation to the pool whose ranges contain it", 2)
 			ruleReloadDeletesOnlyForeign(c, "C06.R5")
